@@ -45,7 +45,7 @@ SIGNATURES = {}
 
 FEAT = gen.Feat(inherit=True, items=True, uncached=True, objrefs=False, shadow=False, max_top=3, max_child=2,
                 max_cells=3, max_rank=3, depth=1, tick=False)
-BAD_NAMES = ["3S", "_hid", "for", "a b", "", "x-y", "dé f"]
+BAD_NAMES = ["3S", "_hid", "for", "a b", "", "x-y", "dé f", "Abc\n", "x1\n", " lead", "trail "]
 BAD_FORMULAS = ["def bad(x) return", "x = 1\ny = 2", "1 + 1", "def f(:\n    pass", "lambda x: (", "import os"]
 
 
